@@ -89,10 +89,10 @@ def initEnv (t0 t1 : Float) (haveH halfway : Bool) (nd : Int) (cs : Int) (dt : O
   if halfway then some ⟨cfg, ops, st⟩ else
   match dt with
   | none => some ⟨cfg, ops, st⟩
-  | some d => (depTree cfg arith 100000 st d).map fun st' => ⟨cfg, ops, st'⟩
+  | some d => (depTree cfg arith 10000000 st d).map fun st' => ⟨cfg, ops, st'⟩
 
 def answer (env : Env) (ta tb : Float) (full : Bool) : Env × String :=
-  match call env.cfg env.ops arith 100000 env.st ta tb with
+  match call env.cfg env.ops arith 10000000 env.st ta tb with
   | none => (env, "error")
   | some (st', ans) =>
     let s := bits ans.W ++ " " ++ bits ans.U ++ " " ++ toString ans.pieces ++ " " ++ toString ans.splitDepth ++ " | " ++
